@@ -21,10 +21,20 @@ def _f(x):
 
 
 NATIVE = False      # True: normalise byte order (value-level comparison)
+LOOSE = False       # True: value-level comparison of two DIFFERENT objects
+#                     (a copy and its original): the order of dict items,
+#                     array dtype / writeable flag / byte order and the
+#                     Quantity subclass are representation, not value
 
 
 def _arr(a):
     a = np.asarray(a)
+    if LOOSE and a.dtype.kind in 'iufb':
+        f = a.astype('float64')
+        return ['ndv', list(a.shape), np.ascontiguousarray(f).tobytes().hex()
+                if f.size <= 8 else
+                'sha1:' + hashlib.sha1(np.ascontiguousarray(f).tobytes())
+                .hexdigest()]
     if NATIVE and a.dtype.byteorder not in ('=', '|'):
         a = a.astype(a.dtype.newbyteorder('='))
     if a.dtype == object:
@@ -150,6 +160,9 @@ def canon(obj, _depth=0):
     if _depth > 40:
         return ['deep']
     d = _depth + 1
+    if LOOSE and isinstance(obj, (bool, int, float, np.integer, np.floating,
+                                  np.bool_)):
+        return ['num', _f(obj)]
     if obj is None or isinstance(obj, (bool, int, str, bytes)):
         return ['py', type(obj).__name__, repr(obj)]
     if isinstance(obj, float):
@@ -165,7 +178,8 @@ def canon(obj, _depth=0):
     from astropy.time import Time
     from astropy.units import Quantity, UnitBase
     if isinstance(obj, Quantity):
-        return ['q', type(obj).__name__, obj.unit.to_string(),
+        return ['q', 'Quantity' if LOOSE else type(obj).__name__,
+                obj.unit.to_string(),
                 _arr(obj.value) if np.ndim(obj.value) else
                 ['f0', np.asarray(obj.value).dtype.str,
                  np.asarray(obj.value).tobytes().hex()]]
@@ -196,36 +210,37 @@ def canon(obj, _depth=0):
     if isinstance(obj, PixCoord):
         return ['pix', canon(obj.x, d), canon(obj.y, d)]
     if isinstance(obj, dict):
-        return ['dict', type(obj).__name__,
-                [[canon(k, d), canon(v, d)] for k, v in obj.items()]]
+        items = [[canon(k, d), canon(v, d)] for k, v in obj.items()]
+        if LOOSE:
+            items.sort(key=repr)
+        return ['dict', type(obj).__name__, items]
     if isinstance(obj, (list, tuple)):
         return [type(obj).__name__, [canon(x, d) for x in obj]]
     if isinstance(obj, (set, frozenset)):
         return [type(obj).__name__, sorted(repr(canon(x, d)) for x in obj)]
     if isinstance(obj, Region):
-        # the *value* of a region: class, shape parameters, meta, visual and
-        # any other public instance attribute.  Private attributes (leading
-        # underscore) are representation, e.g. caches, and are ignored: the
-        # properties speak about "parameters, meta, visual".
+        # the *value* of a region is what the properties name: class,
+        # shape parameters, meta, visual - read through the public
+        # attributes.  Everything else an instance may carry (private
+        # caches, lazily computed properties stored under a public name,
+        # derived attributes, where and how the values are stored) is
+        # representation and is ignored.
         items = []
-        seen = set()
         for k in list(getattr(obj, '_params', ()) or ()) + ['meta', 'visual']:
-            seen.add(k)
             try:
                 items.append([k, canon(getattr(obj, k), d)])
             except AttributeError:
                 items.append([k, ['missing']])
-        for k in sorted(obj.__dict__):
-            if k.startswith('_') or k in seen:
-                continue
-            items.append([k, canon(obj.__dict__[k], d)])
         return ['obj', type(obj).__name__, items]
     if isinstance(obj, (RegionMask, RegionBoundingBox)):
+        names = ('data', 'bbox') if isinstance(obj, RegionMask) \
+            else ('ixmin', 'ixmax', 'iymin', 'iymax')
         items = []
-        for k in sorted(obj.__dict__):
-            if k.startswith('_'):
-                continue
-            items.append([k, canon(obj.__dict__[k], d)])
+        for k in names:
+            try:
+                items.append([k, canon(getattr(obj, k), d)])
+            except AttributeError:
+                items.append([k, ['missing']])
         return ['obj', type(obj).__name__, items]
     if isinstance(obj, Regions):
         return ['regions', type(obj).__name__, canon(obj.regions, d)]
@@ -261,6 +276,17 @@ def canon(obj, _depth=0):
         except Exception:  # pragma: no cover
             pass
     return ['repr', type(obj).__name__, _ADDR.sub('0x', repr(obj))[:400]]
+
+
+def canon_loose(obj):
+    """Canonical form for comparing a copy with its original (see LOOSE)."""
+    global LOOSE, NATIVE
+    old = (LOOSE, NATIVE)
+    LOOSE = NATIVE = True
+    try:
+        return canon(obj)
+    finally:
+        LOOSE, NATIVE = old
 
 
 def canon_value(obj):
